@@ -1,6 +1,7 @@
 package ssax
 
 import (
+	"go/token"
 	"go/types"
 	"sort"
 
@@ -158,4 +159,105 @@ func (l *Loop) HasContentExit() bool {
 		}
 	}
 	return false
+}
+
+// ConstTrip: the loop is a counting loop over a range whose length is a constant of
+// the program: its head tests `i < n` (or `i+1 < n`) with i a phi stepping by one
+// from a constant and n an integer constant or the length of a value rooted at a
+// package-level variable (a table; package-level state is not written at run time).
+func (l *Loop) ConstTrip() bool {
+	iff, ok := l.Head.Instrs[len(l.Head.Instrs)-1].(*ssa.If)
+	if !ok {
+		return false
+	}
+	cmp, ok := iff.Cond.(*ssa.BinOp)
+	if !ok || cmp.Op != token.LSS {
+		return false
+	}
+	// the true side stays in the loop
+	if len(l.Head.Succs) != 2 || !l.Body[l.Head.Succs[0]] || l.Body[l.Head.Succs[1]] {
+		return false
+	}
+	var ph *ssa.Phi
+	switch x := cmp.X.(type) {
+	case *ssa.Phi:
+		ph = x
+	case *ssa.BinOp:
+		if k, isK := ConstInt(x.Y); isK && k == 1 && x.Op == token.ADD {
+			ph, _ = x.X.(*ssa.Phi)
+		}
+	}
+	if ph == nil || ph.Block() != l.Head || len(ph.Edges) < 2 {
+		return false
+	}
+	// every edge is the start constant or the counter plus one (several `continue`s give several edges)
+	step, start := false, false
+	for _, e := range ph.Edges {
+		if _, isK := ConstInt(e); isK {
+			start = true
+			continue
+		}
+		bo, ok := e.(*ssa.BinOp)
+		if !ok || bo.Op != token.ADD || bo.X != ssa.Value(ph) {
+			return false
+		}
+		if k, isK := ConstInt(bo.Y); !isK || k != 1 {
+			return false
+		}
+		step = true
+	}
+	if !step || !start {
+		return false
+	}
+	if _, isK := ConstInt(cmp.Y); isK {
+		return true
+	}
+	if call, ok := cmp.Y.(*ssa.Call); ok {
+		if b, ok := call.Common().Value.(*ssa.Builtin); ok && b.Name() == "len" && len(call.Common().Args) == 1 {
+			return rootsAtGlobalValue(call.Common().Args[0], 0)
+		}
+	}
+	return false
+}
+
+func rootsAtGlobalValue(v ssa.Value, depth int) bool {
+	if depth > 8 {
+		return false
+	}
+	switch x := v.(type) {
+	case *ssa.Global:
+		return true
+	case *ssa.UnOp:
+		return x.Op == token.MUL && rootsAtGlobalValue(x.X, depth+1)
+	case *ssa.IndexAddr:
+		return rootsAtGlobalValue(x.X, depth+1)
+	case *ssa.FieldAddr:
+		return rootsAtGlobalValue(x.X, depth+1)
+	case *ssa.Index:
+		return rootsAtGlobalValue(x.X, depth+1)
+	case *ssa.Field:
+		return rootsAtGlobalValue(x.X, depth+1)
+	case *ssa.Slice:
+		return rootsAtGlobalValue(x.X, depth+1)
+	}
+	return false
+}
+
+// EnclosingLoops lists the loops whose body contains b, innermost first.
+func EnclosingLoops(loops []*Loop, b *ssa.BasicBlock) []*Loop {
+	var out []*Loop
+	for _, l := range loops {
+		if l.Body[b] {
+			out = append(out, l)
+		}
+	}
+	// innermost = smallest body
+	for i := 0; i < len(out); i++ {
+		for j := i + 1; j < len(out); j++ {
+			if len(out[j].Body) < len(out[i].Body) {
+				out[i], out[j] = out[j], out[i]
+			}
+		}
+	}
+	return out
 }
